@@ -738,6 +738,17 @@ class PH_:
         return next(iter(res)) if len(res) == 1 else None
 
 
+class _AsAug:
+    """``acc = acc + piece`` presented like ``acc += piece`` (``value`` is the piece)."""
+
+    def __init__(self, node: ast.Assign):
+        self.node = node
+        self.op = node.value.op
+        self.target = node.targets[0]
+        self.value = node.value.right
+        self.lineno, self.col_offset = node.lineno, node.col_offset
+
+
 def _fmt(p: frozenset) -> str:
     if p == PREV:
         return "PREV"
@@ -915,6 +926,11 @@ def _r09d(chk, repo, written_keys: Set[str]) -> None:
     # -- pieces appended to the rendered text ----------------------------------
     augs = [n for n in walk_local(fn) if isinstance(n, ast.AugAssign) and isinstance(n.target, ast.Name) and n.target.id == acc]
     plain = [n for n in walk_local(fn) if isinstance(n, (ast.Assign, ast.AnnAssign)) and any(isinstance(t, ast.Name) and t.id == acc for t in (n.targets if isinstance(n, ast.Assign) else [n.target]))]
+    # ``acc = acc + piece`` is the same growth as ``acc += piece``: read it as one
+    grown = [n for n in plain if isinstance(n, ast.Assign) and len(n.targets) == 1 and isinstance(n.value, ast.BinOp) and isinstance(n.value.op, ast.Add)
+             and isinstance(n.value.left, ast.Name) and n.value.left.id == acc]
+    plain = [n for n in plain if not any(n is g for g in grown)]
+    augs = sorted(augs + [_AsAug(g) for g in grown], key=lambda n: (n.lineno, n.col_offset))
     for a in plain:
         chk.require(in_loop(a) is False and const(a.value) == "", "R09d", a, "the rendered text is re-assigned instead of accumulated from an empty string", detail="placeholder: output starts empty", construct=con)
     chk.count("R09d.output_pieces", len(augs))
@@ -922,6 +938,16 @@ def _r09d(chk, repo, written_keys: Set[str]) -> None:
     for a in augs:
         if not isinstance(a.op, ast.Add):
             chk.fail("R09d", a, "rendered text changed by something other than +=", detail=f"placeholder: output piece {short(a, 60)}", construct=con)
+            continue
+        if isinstance(a, _AsAug):
+            a = a.node
+            lu = P.lit(a.value.right, a)
+            if lu is not None:
+                (lit_in if in_loop(a) else lit_after).append((a, lu))
+            elif in_loop(a):
+                repl_in.append(a)
+            else:
+                chk.fail("R09d", a, f"text appended after the loop is {short(a.value.right, 50)!r}, not the rest of the source", detail="placeholder: tail piece is source[PREV:]", construct=con)
             continue
         lu = P.lit(a.value, a)
         if lu is not None:
@@ -954,7 +980,7 @@ def _r09d(chk, repo, written_keys: Set[str]) -> None:
         chk.require(cfg.dominates(lit_in[0][0], repl_in[0]), "R09d", repl_in[0], "the replacement is appended before the literal text that precedes the parameter",
                     detail="placeholder: literal before replacement", construct=con)
     for a in repl_in:
-        why = repl_ok(a.value, a, set())
+        why = repl_ok(a.value.right if isinstance(a, ast.Assign) else a.value, a, set())
         chk.require(why is None, "R09d", a, f"placeholder replacement: {why}", detail="placeholder: replacement is the context value or the name of the matched parameter", construct=con)
 
     # -- positional counter ------------------------------------------------------
@@ -1120,6 +1146,13 @@ def _r09g(chk, repo) -> None:
                     and isinstance(st.value, ast.Call) and last_attr(st.value) in ("find", "index"):
                 n += 1
                 a = st.value.args[1] if len(st.value.args) > 1 else None
+                if isinstance(a, ast.Name) and a.id not in pos:
+                    # the resume position computed into a local first
+                    from ..cfg import origins as _origins
+
+                    os_ = _origins(cfg_of(f), a, st)
+                    if len(os_) == 1 and os_[0].kind == "expr" and not os_[0].path and isinstance(os_[0].expr, ast.AST):
+                        a = os_[0].expr
                 ok = (
                     isinstance(a, ast.BinOp) and isinstance(a.op, ast.Add)
                     and ((isinstance(a.left, ast.Name) and a.left.id in pos and isinstance(a.right, ast.Constant) and a.right.value == 1)
@@ -1177,7 +1210,95 @@ def run(chk) -> None:
 # ---------------------------------------------------------------------------
 from ..selftest import Variant  # noqa: E402
 
+HSTR = "src/sqlfluff/core/helpers/string.py"
+
 VARIANTS = [
+    # behaviour-preserving refactors: must stay quiet
+    Variant(
+        "quiet-span-from-start-and-end", PH,
+        "            span = found_param.span()\n",
+        "            span = (found_param.start(), found_param.end())\n",
+        "QUIET", None, "span() spelled as (start(), end())",
+    ),
+    Variant(
+        "quiet-output-grows-by-plain-assignment", PH,
+        "            out_str += in_str[last_pos_raw : span[0]]\n",
+        "            out_str = out_str + in_str[last_pos_raw : span[0]]\n",
+        "QUIET", None, "+= spelled as x = x + y",
+    ),
+    Variant(
+        "quiet-literal-piece-through-local", PH,
+        "            out_str += in_str[last_pos_raw : span[0]]\n",
+        "            literal_text = in_str[last_pos_raw : span[0]]\n            out_str += literal_text\n",
+        "QUIET", None, "copied literal through a local",
+    ),
+    Variant(
+        "quiet-replacement-conditional-expression", PH,
+        "            if param_name in context:\n                replacement = str(context[param_name])\n            else:\n                replacement = param_name\n",
+        "            replacement = str(context[param_name]) if param_name in context else param_name\n",
+        "QUIET", None, "if/else assignment spelled as a conditional expression",
+    ),
+    Variant(
+        "quiet-replacement-by-get-with-default", PH,
+        "            if param_name in context:\n                replacement = str(context[param_name])\n            else:\n                replacement = param_name\n",
+        "            replacement = str(context.get(param_name, param_name))\n",
+        "QUIET", None, "membership test + lookup spelled as .get(name, name)",
+    ),
+    Variant(
+        "quiet-named-branch-first-counter-spelled-out", PH,
+        "            if \"param_name\" not in found_param.groupdict():\n                param_name = str(param_counter)\n                param_counter += 1\n            else:\n                param_name = found_param[\"param_name\"]\n",
+        "            if \"param_name\" in found_param.groupdict():\n                param_name = found_param.group(\"param_name\")\n            else:\n                param_name = str(param_counter)\n                param_counter = param_counter + 1\n",
+        "QUIET", None, "branches swapped, .group(), += 1 spelled out",
+    ),
+    Variant(
+        "quiet-pattern-read-inline", PH,
+        "        regex = context[\"__bind_param_regex\"]\n        # when the param has no name, use a 1-based index\n        param_counter = 1\n        for found_param in regex.finditer(in_str):\n",
+        "        # when the param has no name, use a 1-based index\n        param_counter = 1\n        for found_param in context[\"__bind_param_regex\"].finditer(in_str):\n",
+        "QUIET", None, "pattern read from the context in the loop header",
+    ),
+    Variant(
+        "quiet-tail-test-mirrored-and-length-local", PH,
+        "        if len(in_str) > last_pos_raw:\n",
+        "        source_len = len(in_str)\n        if last_pos_raw < source_len:\n",
+        "QUIET", None, "comparison mirrored, length through a local",
+    ),
+    Variant(
+        "quiet-quotation-read-by-group-call", PH,
+        "                quotation = found_param[\"quotation\"]\n                replacement = quotation + replacement + quotation\n",
+        "                quote_char = found_param.group(\"quotation\")\n                replacement = quote_char + replacement + quote_char\n",
+        "QUIET", None, "group read with .group(), local renamed",
+    ),
+    Variant(
+        "quiet-findall-resume-position-through-local", HSTR,
+        "        idx = in_str.find(substr, idx + 1)\n",
+        "        resume_at = idx + 1\n        idx = in_str.find(substr, resume_at)\n",
+        "QUIET", None, "resume position through a local",
+    ),
+    Variant(
+        "quiet-python-format-receiver-through-local", PY,
+        "                rendered_str = raw_str_with_dot_notation_hack.format(**live_context)\n",
+        "                template_text = raw_str_with_dot_notation_hack\n                rendered_str = template_text.format(**live_context)\n",
+        "QUIET", None, "rewritten text through one more local",
+    ),
+    # breaking twins in the spellings the QUIET sweep taught the rules to read
+    Variant(
+        "output-grows-by-plain-assignment-from-the-wrong-start", PH,
+        "            out_str += in_str[last_pos_raw : span[0]]\n",
+        "            out_str = out_str + in_str[last_pos_raw : span[1]]\n",
+        "R09d", "process", "x = x + y spelling; the literal copy runs to the end of the match (parameter text duplicated)",
+    ),
+    Variant(
+        "output-restarted-inside-the-loop", PH,
+        "            out_str += in_str[last_pos_raw : span[0]]\n",
+        "            out_str = in_str[last_pos_raw : span[0]]\n",
+        "R09d", "process", "plain assignment that drops what was accumulated",
+    ),
+    Variant(
+        "findall-resume-position-through-local-skips-overlaps", HSTR,
+        "        idx = in_str.find(substr, idx + 1)\n",
+        "        resume_at = idx + len(substr)\n        idx = in_str.find(substr, resume_at)\n",
+        "R09g", "findall", "resume after the whole hit, through a local",
+    ),
     Variant(
         "findall-skips-overlapping-occurrences", "src/sqlfluff/core/helpers/string.py",
         "        idx = in_str.find(substr, idx + 1)\n",
